@@ -57,13 +57,15 @@ def prop_value_ok(t, exp, got_default, got_raw):
 
 
 def nontrivial(prog):
-    nseg = sum(len(c) for c in prog['sessions'])
+    nseg = sum(1 for c in prog['sessions'] for call in c if not isinstance(call, dict))
     if len([s for s in prog['sessions'] if s]) >= 2:
         return True
     seen = {}
     pseen = set()
     for calls in prog['sessions']:
         for call in calls:
+            if isinstance(call, dict):
+                continue
             for o in call:
                 key = (o['kind'], o.get('group'), o.get('channel'))
                 if o['kind'] == 'channel':
@@ -94,6 +96,8 @@ def check(case, rec):
     rec.nontrivial(nontrivial(prog))
     rec.label('dest=' + prog['dest'], 'index=%s' % prog['index'], 'sessions=%d' % len(prog['sessions']))
     model = res['model']
+    if model.rejected_calls:
+        rec.label('with_rejected_calls_in_between')
     data = res['data']
     tf = verify(rec, model, data, '', True)
     if tf is not None and prog.get('rewrite'):
